@@ -17,3 +17,9 @@ var Registry = map[string]*Check{}
 func register(id, level string, run func(r *ev.Rec)) {
 	Registry[id] = &Check{ID: id, Level: level, Run: run, Sharded: true}
 }
+
+func must(err error) {
+	if err != nil {
+		panic(err)
+	}
+}
